@@ -45,8 +45,15 @@ def dateObs (E : Env) (s : DateState) (ret : Option Bool) : Json :=
 def runDate (j : Json) : Except String Json := do
   let E ← envOf j
   let ops ← (← afld j "ops").mapM parseDateOp
+  let c : DateCfg ← match j.getObjVal? "members" with
+    | .ok mj => if isNull mj then pure ({} : DateCfg) else do
+        match (← arr mj) with
+        | [a, b, d] => pure { ky := ← parseKind (← fld a "kind"), km := ← parseKind (← fld b "kind"), kd := ← parseKind (← fld d "kind"),
+                              ny := ← cfld a "name", nm := ← cfld b "name", nd := ← cfld d "name" }
+        | _ => throw "bad members"
+    | .error _ => pure ({} : DateCfg)
   let start : DateState := ⟨Flatland.C04.blankState, Flatland.C04.blankState, Flatland.C04.blankState⟩
-  let steps := runOps (fun (s : DateState) o => match s.step E o with
+  let steps := runOps (fun (s : DateState) o => match s.step E c o with
       | .ok (s', ret) => .ok (s', dateObs E s' ret)
       | .error e => .error (craiseName e)) excObj start ops []
   return obj [("steps", Json.arr steps.toArray)]
